@@ -243,6 +243,14 @@ def run(chk: Check) -> None:
     jobs.append((base, [{"0005/0008"}], 2))
     jobs.append((base, [{"0005/0008", "0005/000A", "0005/0011"}, {"000C/0008", "000C/0204"}], 3))
     jobs.append((base, [{"0005/0004", "000C/000D"}], 2))
+    # every (zone index, zone class) pair, each zone with a sensor and an actuator or two: four 12-zone configurations
+    for k in range(4):
+        zs = {}
+        for i in range(12):
+            cls = list(CLASSES)[(i + k) % 4]
+            acts = [f"{'04' if cls == '08' else '13'}:{2000 + 100 * k + 10 * i + j:06d}" for j in range(1 + (i + k) % 2)]
+            zs[f"{i:02X}"] = {"class": cls, "sensor": f"34:{3000 + 100 * k + i:06d}", "actuators": acts}
+        jobs.append(({"zones": zs, "dhw": {"sensor": None, "hotwater_valve": None, "heating_valve": None}, "app": None}, [], 1))
     for ep in range(n_ep):
         cfg = gen_cfg(rnd)
         n_lossy = rnd.choice((0, 0, 1, 1, 2, 3))
